@@ -176,9 +176,22 @@ pub fn check_order(h: &History, rep: &mut EpReport) -> OrderStats {
         }
         let mut latest_vt: Option<&First> = None;
         let mut latest_call: Option<&First> = None;
+        // per StreamingPull stream: among the smaller ids seen so far, the one in the latest response
+        // (the responses of one stream are sent one after the other, whatever the clock says)
+        let mut latest_resp: HashMap<u64, &First> = HashMap::new();
         for b in sorted {
             st.ordered_pairs_checked += 1;
             let mut witness: Option<&First> = None;
+            if b.pull_call_seq.is_none() {
+                if let Some(a) = latest_resp.get(&b.op_id) {
+                    if b.resp_no < a.resp_no && id_lt(&a.id, &b.id) {
+                        witness = Some(*a);
+                    }
+                }
+                if latest_resp.get(&b.op_id).map(|a| b.resp_no > a.resp_no).unwrap_or(true) {
+                    latest_resp.insert(b.op_id, b);
+                }
+            }
             if let Some(a) = latest_vt {
                 if b.vt < a.vt && (a.op_id, a.resp_no) != (b.op_id, b.resp_no) && id_lt(&a.id, &b.id) {
                     witness = Some(a);
